@@ -21,7 +21,12 @@ from ..common import Check, MachineryError, SPEC
 from .. import tlc
 
 PID = "C17"
-KEYS5 = ["LIT", "ROWN", "RMIX", "PATH", "DEFAULTS"]
+KEYS4 = ["BASE", "PATH", "CH", "DEFAULTS"]
+
+
+def perms(names, maxlen):
+    import itertools
+    return [list(p) for n in range(maxlen + 1) for p in itertools.permutations(names, n)]
 ALLSELS = ["unset", "empty", "none", "NONE", "environment", "ENVIRONMENT", "name", "NAME", "NaMe", "unknown"]
 SEL_TEXT = {"empty": "", "none": "none", "NONE": "None", "environment": "environment", "ENVIRONMENT": "Environment",
             "name": "myenv", "NAME": "MYENV", "NaMe": "MyEnv", "unknown": "nosuchenv"}
@@ -29,34 +34,49 @@ DEF_NAME = {("named", "lower"): "myenv", ("named", "mixed"): "MyEnv", ("pkg", "l
 
 
 def sset(xs):
-    return "{" + ", ".join(('"%s"' % x) if isinstance(x, str) else ("TRUE" if x else "FALSE") for x in xs) + "}"
+    def one(x):
+        if isinstance(x, (list, tuple)):
+            return "<<" + ", ".join('"%s"' % y for y in x) + ">>"
+        return ('"%s"' % x) if isinstance(x, str) else ("TRUE" if x else "FALSE")
+    return "{" + ", ".join(one(x) for x in xs) + "}"
 
 
 def family_cfg(name, plats=("default", "p1"), sels=("name",), spells=("lower",), interps=(False,), namedD=(), namedP=(), pkgD=(), pkgP=(),
-               creatable=("named@default", "named@p1", "pkg@default", "pkg@p1")):
+               creatable=("named@default", "named@p1", "pkg@default", "pkg@p1"), dlists=()):
     return {"name": name, "text": "CONSTANTS\n  Plats = %s\n  Sels = %s\n  Spells = %s\n  Interps = %s\n  NamedD = %s\n  NamedP = %s\n  PkgD = %s\n  PkgP = %s\n"
-            "  Creatable = %s\n  Family = \"%s\"\n  Emit = TRUE\nSPECIFICATION Spec\nINVARIANT TypeOK\nINVARIANT CheckAndEmit\nCHECK_DEADLOCK FALSE\n" % (
-                sset(plats), sset(sels), sset(spells), sset(interps), sset(namedD), sset(namedP), sset(pkgD), sset(pkgP), sset(creatable), name)}
+            "  Creatable = %s\n  DLists <- MCDLists\n  Family = \"%s\"\n  Emit = TRUE\nSPECIFICATION Spec\nINVARIANT TypeOK\nINVARIANT CheckAndEmit\nCHECK_DEADLOCK FALSE\n" % (
+                sset(plats), sset(sels), sset(spells), sset(interps), sset(namedD), sset(namedP), sset(pkgD), sset(pkgP), sset(creatable), name),
+            # a cfg file cannot hold sequences: the DEFAULTS lists are a definition of a generated module that extends Env
+            "module": "---- MODULE %s ----\nEXTENDS Env\nMCDLists == %s\n====\n" % ("%s", sset(dlists)),
+            "has_defaults": bool(dlists)}
 
 
 def families(tier):
     th = tier == "thorough"
+    orders = perms(["BASE", "PATH", "IMP"], 3)                  # length 0..3, every order: 16 lists
+    orders += [["NOPE"], ["BASE", "NOPE", "PATH"], ["PATH", "NOPE", "BASE"], ["NOPE", "IMP"]]
+    if th:
+        orders = perms(["BASE", "PATH", "IMP", "NOPE"], 3)      # 41 lists
     fams = [
         # every selection x spelling x platform x interpreter x presence (absent / empty / with a key) of the four environments
         family_cfg("selection", sels=ALLSELS, spells=("lower", "mixed"), interps=(False, True),
-                   namedD=["LIT", "ROWN"] if th else ["LIT"], namedP=["LIT", "RMIX"] if th else ["LIT"], pkgD=["LIT"], pkgP=["RMIX"] if th else ["LIT"]),
-        # named environment: every subset of the five keys on the default platform x on p1 (layering, DEFAULTS, expansion order)
-        family_cfg("named-keys", sels=("NaMe",), spells=("mixed", "lower") if th else ("lower",), interps=(False, True), namedD=KEYS5, namedP=KEYS5,
-                   creatable=("named@default", "named@p1")),
+                   namedD=["BASE", "PATH"] if th else ["BASE"], namedP=["BASE", "CH"] if th else ["BASE"], pkgD=["BASE"], pkgP=["CH"] if th else ["BASE"]),
+        # one environment: every key subset x every DEFAULTS list (length 0..3, every order; imported names the environment
+        # defines / does not define; the key referring to an imported name listed before / after it)
+        family_cfg("defaults-orders", sels=("NaMe",), interps=(False, True), namedD=KEYS4, creatable=("named@default",), dlists=orders),
+        # named environment on both platforms: every key subset x a few DEFAULTS lists on the default platform x on p1
+        family_cfg("named-keys", sels=("NaMe",), spells=("mixed", "lower") if th else ("lower",), interps=(False, True), namedD=KEYS4, namedP=KEYS4,
+                   creatable=("named@default", "named@p1"),
+                   dlists=[["BASE", "PATH"], ["PATH", "BASE"], ["IMP"]] + ([[], ["PATH", "IMP", "BASE"]] if th else [])),
         # package default environment selected implicitly / explicitly: key subsets on both platforms
         family_cfg("default-keys", sels=("unset", "environment") + (("empty", "ENVIRONMENT") if th else ()), interps=(False, True),
-                   pkgD=KEYS5 if th else ["LIT", "ROWN", "PATH", "DEFAULTS"], pkgP=KEYS5 if th else ["LIT", "RMIX", "PATH", "DEFAULTS"],
-                   creatable=("pkg@default", "pkg@p1")),
+                   pkgD=KEYS4 if th else ["BASE", "PATH", "DEFAULTS"], pkgP=KEYS4,
+                   creatable=("pkg@default", "pkg@p1"), dlists=[["PATH", "IMP"], ["BASE", "PATH"]] + ([["PATH", "BASE", "NOPE"]] if th else [])),
     ]
     if th:
         # both kinds of environment with keys at once: the other kind must never matter
-        fams.append(family_cfg("cross", sels=("unset", "name", "none"), interps=(True,), namedD=["LIT", "PATH", "DEFAULTS"], namedP=["ROWN", "DEFAULTS"],
-                               pkgD=["LIT", "DEFAULTS"], pkgP=["PATH", "RMIX"]))
+        fams.append(family_cfg("cross", sels=("unset", "name", "none"), interps=(True,), namedD=["BASE", "PATH", "DEFAULTS"], namedP=["CH", "DEFAULTS"],
+                               pkgD=["BASE", "DEFAULTS"], pkgP=["PATH", "CH"], dlists=[["BASE", "PATH"], ["IMP"]]))
     return fams
 
 
@@ -86,7 +106,7 @@ def build_package(case):
         n, p = eid.split("@")
         envs[p][DEF_NAME[(n, case["spell"])]] = {k: render(v) for k, v in as_dict(content).items()}
     # decoys: platform p2 defines both environments, and another environment exists on every platform
-    decoy = lambda tag: {"LIT": ":LIT.%s.1:" % tag, "ROWN": ":ROWN.%s.1:$LIT" % tag, "PATH": ":PATH.%s.1:$PATH" % tag, "DEFAULTS": "DECOY:HOME:PATH",
+    decoy = lambda tag: {"BASE": ":BASE.%s.1:" % tag, "CH": ":CH.%s.1:$BASE" % tag, "PATH": ":PATH.%s.1:$PATH" % tag, "DEFAULTS": "DECOY:HOME:PATH",
                          "EXTRA": ":EXTRA.%s.1:" % tag}
     envs["p2"][DEF_NAME[("named", case["spell"])]] = decoy("named@p2")
     envs["p2"][DEF_NAME[("pkg", case["spell"])]] = decoy("pkg@p2")
@@ -193,7 +213,7 @@ def run_case(case):
         else:
             out.append(("extra-key:%s:%s" % (cls, k if k in ("EXTRA", "DEFAULTS") else "other"), "%s: unexpected variable %s=%r" % (where, k, got[k]), rp))
     for k in sorted(set(want) - set(got)):
-        src = "system" if k in sysv else ("imported" if k in launch and k not in KEYS5 else "declared")
+        src = "system" if k in sysv else ("imported" if k in launch and k not in KEYS4 else "declared")
         out.append(("missing:%s:%s" % (cls, src), "%s: variable %s missing, specification %r" % (where, k, want[k]), rp))
     for k in sorted(set(want) & set(got)):
         if got[k] != want[k]:
@@ -202,7 +222,7 @@ def run_case(case):
             if bad:
                 key = "leak:decoy-text:%s" % cls
             else:
-                key = "value:%s:%s" % (cls, k if k in KEYS5 + ["SYS"] else "imported")
+                key = "value:%s:%s" % (cls, k if k in KEYS4 + ["SYS"] else "imported")
             out.append((key, "%s: variable %s should be %r, real %r" % (where, k, want[k], got[k]), rp))
     return out
 
@@ -234,11 +254,15 @@ def run(tier):
     os.makedirs(gen, exist_ok=True)
     fams = families(tier)
 
-    def tlc_run(fam):
-        cfg = os.path.join(gen, "Env_%s_%s.cfg" % (fam["name"].replace("-", "_"), tier))
+    def tlc_run(fam, text=None, workers=1):
+        mod = "Env_%s_%s" % (fam["name"].replace("-", "_"), tier)
+        cfg = os.path.join(gen, mod + ".cfg")
         with open(cfg, "w") as f:
-            f.write(fam["text"])
-        return tlc.run_tlc("Env", cfg, workers=1, timeout=800, coverage=True)
+            f.write(text or fam["text"])
+        with open(os.path.join(gen, mod + ".tla"), "w") as f:
+            f.write(fam["module"] % mod)
+        return tlc.run_tlc(mod, cfg, workers=workers, timeout=800, coverage=True, specdir=gen, jvm=["-DTLA-Library=" + SPEC],
+                           expect_violation=text is not None)
 
     with concurrent.futures.ThreadPoolExecutor(max_workers=4) as ex:        # the threads only wait for TLC subprocesses
         runs = list(ex.map(tlc_run, fams))
@@ -249,14 +273,11 @@ def run(tier):
             if which == "CheckAndEmit":
                 # name the failing conjunct
                 for inv in ("ErrorIff", "NoLeak", "NoneIsEmpty", "SystemAlways", "NoForeignText", "PlatformOverDefault", "OwnBeforeLaunch", "ForeignIrrelevant"):
-                    cfg = os.path.join(gen, "Env_%s_%s_%s.cfg" % (fam["name"].replace("-", "_"), tier, inv))
-                    with open(cfg, "w") as f:
-                        f.write(fam["text"].replace("Emit = TRUE", "Emit = FALSE").replace("INVARIANT CheckAndEmit", "INVARIANT " + inv))
-                    if tlc.run_tlc("Env", cfg, workers=4, timeout=800, expect_violation=True)["violated"]:
+                    if tlc_run(fam, fam["text"].replace("Emit = TRUE", "Emit = FALSE").replace("INVARIANT CheckAndEmit", "INVARIANT " + inv), 4)["violated"]:
                         which = inv
                         break
             raise MachineryError("Env.tla (%s): %s fails on the model:\n%s" % (fam["name"], which, r["out"][-1500:]))
-        for act in ("Create", "AddKey"):
+        for act in ("Create", "AddKey") + (("AddDefaults",) if fam["has_defaults"] else ()):
             if not r["coverage"].get(act):
                 raise MachineryError("action %s of Env.tla never taken in family %s: %s" % (act, fam["name"], r["coverage"]))
         seen, uniq = set(), []
@@ -274,7 +295,8 @@ def run(tier):
     n_launch = sum(1 for c in cases if c["class"] == "default-launch")
     n_imp = sum(1 for c in cases if c["expected"]["ok"] and "IMP" in as_dict(c["expected"]["env"]))
     n_layer = sum(1 for c in cases if c["plat"] == "p1" and len(as_dict(c["envs"])) >= 2)
-    n_own = sum(1 for c in cases if c["expected"]["ok"] and c["class"] != "default-launch" and {"ROWN", "LIT"} <= set(as_dict(c["expected"]["env"])))
+    n_own = sum(1 for c in cases if c["expected"]["ok"] and c["class"] != "default-launch" and {"PATH", "BASE"} <= set(as_dict(c["expected"]["env"]))
+                and "DEFAULTS" in "".join(",".join(as_dict(x)) for x in as_dict(c["envs"]).values()))
     n_path = sum(1 for c in cases if c["interp"] and c["expected"]["ok"] and c["class"] in ("named", "none") and "PYTHONPATH" in as_dict(c["expected"]["env"]))
     n_decoyplat = sum(1 for c in cases if c["plat"] == "default" and any(e.endswith("@p1") for e in as_dict(c["envs"])))
     if not (n_err and n_launch and n_imp and n_layer and n_own and n_path and n_decoyplat):
